@@ -253,12 +253,58 @@ def r4_indentation(run, F):
     run.ob("R4-INDENTATION", "rebuild() visits every declaration", len(cs) == 1, F.where(r), "rebuild() prints each declaration once")
 
 
+def r5_parse_only_annotations(run, F):
+    """The rebuilder prints *annotated* code (`#id`, `#?`, `(+depth)`).  For a tree that was only parsed the annotations
+    that depend on later stages stay empty (identify() prints `#id` only for resolution_id > 0, depth is None), but the
+    text printed for what the parser itself builds must lex: every fixed fragment of the format strings reachable with
+    parser-built nodes has to be made of lexable characters."""
+    # fragments that are printed only for nodes/fields the parser never builds (reviewed): none of the `#` fragments
+    # below is in that class -- the parser builds ValueType::Struct for `struct X {..}` and UnresolvedStructOrWord for a type name
+    decl = F.body("<alpha::common::Declaration as alpha::rebuilder::Rebuildable>::rebuild")
+    vts = [b for p, b in F.lib.bodies.items() if p.endswith("as alpha::rebuilder::Rebuildable>::rebuild") and "value_type::ValueType" in p]
+    run.require(len(vts) == 1, "ValueType::rebuild not found")
+    frs = {}
+    for b, label in ((decl, "Declaration"), (vts[0], "ValueType")):
+        for x in walk(b["hir"]):
+            src = x.get("src", "")
+            if src.startswith(("write!", "writeln!", "format!")):
+                mo = re.search(r'"((?:[^"\\]|\\.)*)"', src)
+                if mo and "#" in mo.group(1) and "!#!" not in mo.group(1):
+                    frs.setdefault((label, mo.group(1)), F.where(b, x))
+    for (label, frag), wh in sorted(frs.items()):
+        run.ob("R5-PARSER-BUILT-TEXT-LEXES", "%s|%s" % (label, frag), False, wh,
+               "%s::rebuild prints the fragment %r for nodes the parser builds; `#` is not a character of the language, so the rebuilt text of "
+               "any module with a struct/word declaration or a named type does not lex" % (label, frag))
+    run.ob("R5-PARSER-BUILT-TEXT-LEXES", "scan", True, F.where(decl), "%d format fragments with `#` found in Declaration/ValueType rebuild" % len(frs))
+    # `pub` is printed for every kind of declaration that can carry it
+    m = hirq.find_match(decl, min_arms=5)
+    for variant in ("Constant", "Function", "FunctionHead", "Structure"):
+        arm = hirq.arm_for(m, "Declaration::" + variant)
+        ok = False
+        if arm:
+            for n in walk(arm[0]["body"]):
+                if n.get("k") == "If" and any(hirq.short(p).endswith("DeclarationFlag::Public") for p, _ in hirq.constructs(n["cond"])):
+                    ok = True
+        run.ob("R5-FLAGS-PRINTED", "%s|pub" % variant, ok, F.where(decl, arm[0] if arm else None),
+               "Declaration::%s must print `pub` when the Public flag is set (a public %s loses the flag in a round trip)" % (variant, variant))
+    # the file name of an import is a string literal: it must be printed escaped
+    iarm = hirq.arm_for(m, "Declaration::Import")
+    esc = False
+    if iarm:
+        cs = [hirq.callee(c) or "" for c in hirq.calls(iarm[0]["body"])]
+        srcs = [x.get("src", "") for x in walk(iarm[0]["body"]) if x.get("src")]
+        esc = any("escape_default" in c or "escape_debug" in c for c in cs) or any("{:?}" in x for x in srcs)
+    run.ob("R5-IMPORT-PATH-ESCAPED", "Import", esc, F.where(decl, iarm[0] if iarm else None),
+           "the path of an import is printed between quotes without escaping: `import \"a\\\\b.pn\";` is rebuilt as `import \"a\\b.pn\";`")
+
+
 def check(run):
     F = run.facts("B")
     r1_spellings(run, F)
     r2_completeness(run, F)
     r3_literals(run, F)
     r4_indentation(run, F)
+    r5_parse_only_annotations(run, F)
     if run.tier == "thorough":
         FA = run.facts("A")
         run.key_prefix = "cfgA:"
